@@ -265,6 +265,88 @@ def specKeepsFocus (op : String) (before after : ImplObs) : String :=
     | some i => s!"window {i} on the focus chain changed is_focused during `{op}` without any focus event"
     | none => ""
 
+/-- The end of the latent focus chain below (and including) `win`, following the observed `focused_child` links. -/
+def latentEnd (t : Tree) : Nat → Id → Id
+  | 0, win => win
+  | fuel + 1, win =>
+    match t.wins[win]? with
+    | some w => match w.focusedChild with
+      | some c => latentEnd t fuel c
+      | none => win
+    | none => win
+
+/-- How `show`, `hide`, `close` and a freeing `unref` maintain the focus chain — the rules the property's "focus chain"
+    rests on (anchors: tickit_window_show / tickit_window_hide, the REMOVE case of _do_hierarchy_change), evaluated on the
+    implementation's observations before and after the operation:
+    * no window's `is_focused` changes, and no link but the one of the parent of `win` changes;
+    * `hide` / `close` / a freeing `unref` of the window the parent links to drops that link, and only that;
+    * `show` relinks the parent to `win` exactly when the parent has no link and `win` carries a link or is focused —
+      in particular when the branch below `win` ends in the focused window (then the cursor has to come back).
+    This is what makes the chain a function of the history of take-focus / hide / show / close rather than of whatever
+    the links happen to be. -/
+def specRelink (op : String) (before after : ImplObs) (win : Id) : String :=
+  match before.tree.wins[win]? with
+  | none => ""
+  | some wb =>
+    if wb.freed then "" else
+    let par := wb.parent
+    let gone := match after.tree.wins[win]? with | some wa => wa.freed | none => true
+    let lnk (t : Tree) (i : Id) : Option Id := match t.wins[i]? with | some w => if w.freed then none else w.focusedChild | none => none
+    let foc (t : Tree) (i : Id) : Bool := match t.wins[i]? with | some w => !w.freed && w.isFocused | none => false
+    let live (t : Tree) (i : Id) : Bool := match t.wins[i]? with | some w => !w.freed | none => false
+    let ids := (List.range before.tree.wins.size).filter fun i => live before.tree i && live after.tree i
+    match ids.find? (fun i => foc before.tree i ≠ foc after.tree i) with
+    | some i => s!"`{op} {win}` changed is_focused of window {i} (no focus event is delivered by `{op}`)"
+    | none =>
+      match ids.find? (fun i => some i ≠ par && lnk before.tree i ≠ lnk after.tree i) with
+      | some i => s!"`{op} {win}` changed the focus link of window {i}, which is not the parent of window {win}"
+      | none =>
+        match par with
+        | none => ""
+        | some p =>
+          if !(live after.tree p) then "" else
+          let lb := lnk before.tree p
+          let la := lnk after.tree p
+          if op = "show" then
+            let want := if lb.isNone && ((lnk before.tree win).isSome || foc before.tree win) then some win else lb
+            if la = want then ""
+            else
+              let e := latentEnd before.tree (treeFuel before.tree) win
+              if lb.isNone && foc before.tree e then
+                s!"`show {win}`: the branch below window {win} ends in the focused window {e} and window {p} has no focused child, " ++
+                s!"but window {p} was not linked to window {win}: the focus chain from the root no longer reaches the focused window " ++
+                s!"(focused child of window {p} is {showOptId la}, expected {win})"
+              else s!"`show {win}`: focused child of window {p} is {showOptId la} afterwards, expected {showOptId want}"
+          else if op == "hide" || op == "close" || (op == "unref" && gone) then
+            let want := if lb = some win then none else lb
+            if la = want then ""
+            else s!"`{op} {win}`: focused child of window {p} is {showOptId la} afterwards, expected {showOptId want}"
+          else if la = lb then "" else s!"`{op} {win}` changed the focus link of window {p}"
+
+/-- The cursor setters store what they are given: after `curpos w l c` the cursor cell of window `w` is `(l, c)` (the
+    property's "its cursor cell" is the cell last set, not whatever the record holds), after `curshape w s` its shape is
+    `s`, after `curvis w 0/1` / `curblink w v` the switch reads accordingly; no other window's cursor record changes. -/
+def specSetter (op : String) (before after : ImplObs) (win : Id) (args : List Int) : String :=
+  let cur (t : Tree) (i : Id) : Option Cursor := match t.wins[i]? with | some w => if w.freed then none else some w.cursor | none => none
+  match (List.range after.tree.wins.size).find? (fun i => i ≠ win && cur before.tree i ≠ cur after.tree i) with
+  | some i => s!"`{op} {win}` changed the cursor record of window {i}"
+  | none =>
+    match cur before.tree win, cur after.tree win with
+    | some b, some a =>
+      match op, args with
+      | "curpos", [l, c] =>
+        if a = { b with line := l, col := c } then ""
+        else s!"after `curpos {win} {l} {c}` the cursor cell of window {win} is {a.line},{a.col} (shape {a.shape}, enabled {a.visible}, blink {a.blink})"
+      | "curshape", [v] =>
+        if a = { b with shape := v } then "" else s!"after `curshape {win} {v}` the cursor shape of window {win} reads {a.shape}"
+      | "curvis", [v] =>
+        if v ≠ 0 ∧ v ≠ 1 then "" else
+        if a = { b with visible := v = 1 } then "" else s!"after `curvis {win} {v}` the cursor of window {win} reads enabled={a.visible}"
+      | "curblink", [v] =>
+        if a = { b with blink := if v ≠ 0 then 1 else 0 } then "" else s!"after `curblink {win} {v}` the blink mode of window {win} reads {a.blink}"
+      | _, _ => ""
+    | _, _ => ""
+
 /-! ### stepping the model -/
 
 def detached (st : St) : Nat → Id → Bool
@@ -426,6 +508,24 @@ def stepOp (st : St) (ts : List String) (impl : String) : St × String × String
                 else s!"the terminal is {l} x {c} but the root window is {r.rect.lines} x {r.rect.cols} at {r.rect.top},{r.rect.left}"
               | none => "no root window")
            | _, _, _ => if impl.startsWith "ok" then "unparsable implementation observation" else "")
+        | _ => ""
+      let sv := if sv ≠ "" then sv else
+        match ts with
+        | [op, ids] =>
+          if ["show", "hide", "close", "unref"].contains op then
+            (match parseImpl st.prev, parseImpl impl, ids.toNat? with
+             | some b, some a, some id => specRelink op b a id
+             | _, _, _ => "")
+          else ""
+        | _ => ""
+      let sv := if sv ≠ "" then sv else
+        match ts with
+        | op :: ids :: args =>
+          if ["curpos", "curshape", "curvis", "curblink"].contains op then
+            (match parseImpl st.prev, parseImpl impl, ids.toNat?, ints? args with
+             | some b, some a, some id, some as => specSetter op b a id as
+             | _, _, _, _ => "")
+          else ""
         | _ => ""
       let sv := if sv ≠ "" then sv else
         match ts with
